@@ -519,7 +519,9 @@ func (c *Ctx) rulesC13grace() {
 			}
 		}
 	}
-	visit(hl)
+	for _, hf := range c.hostedFns(hl) {
+		visit(hf)
+	}
 	if n < 4 {
 		c.undecided(fmt.Sprintf("C13.grace: only %d context cases found in handlerLoop (4 expected)", n))
 	}
